@@ -804,7 +804,8 @@ def _emit_bv(case, out):
                   for q, pp in zip(op["others"], rec["oparams"])]
             base = cls == "B" and all((q["cls"], cls) in SUBCLASS for q in op["others"])
             o = "(OConcat %s %s %s)" % (E.b(base), E.lst(ps[:op["self_pos"]], str), E.lst(ps[op["self_pos"]:], str))
-        prm = "[]" if "exc" in rec else _prm(rec["loc"], rec["scale"])
+        # a failing step has no parameters to give: dummies of the right length, so that the model can only fail for the source's reasons
+        prm = E.lst(["(None, None)"] * t, str) if "exc" in rec else _prm(rec["loc"], rec["scale"])
         items.append("(%s,\n    %s,\n    %s)" % (o, prm, _obs(rec, t)))
     return "(case_check %s\n  %s\n  %s\n  [%s])" % (r0, _prm(steps[0]["loc"], steps[0]["scale"]), _obs(steps[0], t), ";\n   ".join(items))
 
